@@ -394,6 +394,9 @@ pub fn run(prop: &str, report: &mut Report) -> Vec<String> {
 }
 
 pub fn replay(v: &serde_json::Value) -> i32 {
+    if !v["replay"]["stream_case"].is_null() {
+        return replay_stream(v);
+    }
     let payload = &v["replay"];
     let c: Case = match serde_json::from_value(payload["case"].clone()) {
         Ok(c) => c,
@@ -420,6 +423,232 @@ pub fn replay(v: &serde_json::Value) -> i32 {
                 || (want == "launcher-signal-differs" && out.child != exp.child);
             println!("{}", if hit { "REPRODUCED" } else { "NOT REPRODUCED" });
             if hit { 1 } else { 0 }
+        }
+    }
+}
+
+// ---------------------------------------------------------------------------------------------
+// C19: the real `create_task_future` with real programs (the piece of the streaming path that
+// Engine E — scripted stdio through the real `resend_stdio` — does not contain: spawning, the
+// join of child-wait and the two forwarders, the final flush)
+// ---------------------------------------------------------------------------------------------
+
+#[derive(Debug, Clone, Serialize, Deserialize)]
+pub struct StreamCase {
+    pub name: String,
+    /// bash script; stdout and stderr are piped into the stream
+    pub script: String,
+    pub stdout: String,
+    pub stderr: String,
+    /// the task result is Finished (exit status 0)
+    pub ok: bool,
+    /// a stop command for the time limit is sent once the script has created the file `ready`
+    #[serde(default)]
+    pub stop_timeout: bool,
+}
+
+pub fn stream_cases() -> Vec<StreamCase> {
+    let c = |name: &str, script: &str, stdout: &str, stderr: &str, ok: bool| StreamCase {
+        name: name.into(),
+        script: script.into(),
+        stdout: stdout.into(),
+        stderr: stderr.into(),
+        ok,
+        stop_timeout: false,
+    };
+    let mut v = vec![
+        c("output-exit0", "printf abc; printf err >&2; exit 0", "abc", "err", true),
+        c("output-exit3", "printf abc; printf err >&2; exit 3", "abc", "err", false),
+        c("silent-exit0", "exit 0", "", "", true),
+        c("silent-exit5", "exit 5", "", "", false),
+        // a helper process keeps the pipe open after the main process is gone
+        c("helper-outlives-exit0", "printf a; (sleep 0.4; printf late) & exit 0", "alate", "", true),
+        c("helper-outlives-exit3", "printf a; (sleep 0.4; printf late) & exit 3", "alate", "", false),
+        c("killed-by-signal", "printf a; printf e >&2; kill -9 $$", "a", "e", false),
+    ];
+    // the time limit strikes: the task ends failed ("Time limit reached"); one program leaves on
+    // SIGINT, the other ignores it and is killed after the grace period
+    v.push(StreamCase { stop_timeout: true, ..c("time-limit-exits-on-sigint", "trap 'exit 0' INT; printf a; touch ready; while :; do sleep 0.05; done", "a", "", false) });
+    v.push(StreamCase { stop_timeout: true, ..c("time-limit-ignores-sigint", "trap '' INT; printf a; touch ready; while :; do sleep 0.05; done", "a", "", false) });
+    v
+}
+
+#[derive(Debug, Clone, PartialEq, Eq, Serialize, Deserialize)]
+pub struct StreamOutcome {
+    pub result_ok: bool,
+    pub in_index: bool,
+    pub finished: bool,
+    pub stdout: String,
+    pub stderr: String,
+}
+
+pub fn run_stream_case(c: &StreamCase) -> Result<StreamOutcome, String> {
+    use hyperqueue::stream::reader::outputlog::OutputLog;
+    use hyperqueue::worker::streamer::StreamerRef;
+    use tako::program::{ProgramDefinition, StdioDef};
+    let scratch = crate::common::Scratch::new("lst");
+    let dir = scratch.path.join("stream");
+    std::fs::create_dir_all(&dir).map_err(|e| e.to_string())?;
+    let rt = tokio::runtime::Builder::new_current_thread()
+        .enable_all()
+        .build()
+        .map_err(|e| e.to_string())?;
+    let local = tokio::task::LocalSet::new();
+    let task_id = tako::TaskId::new(1.into(), 0.into());
+    let script = c.script.clone();
+    let cwd = scratch.path.clone();
+    let cwd_ready = scratch.path.join("ready");
+    let stop_timeout = c.stop_timeout;
+    let dir2 = dir.clone();
+    let result: Result<tako::Result<TaskResult>, String> = local.block_on(&rt, async move {
+        let streamer = StreamerRef::new("hqmcuid", tako::WorkerId::new(1));
+        let program = ProgramDefinition {
+            args: vec!["bash".into(), "-c".into(), script.as_str().into()],
+            env: Default::default(),
+            stdout: StdioDef::Pipe,
+            stderr: StdioDef::Pipe,
+            stdin: Vec::new(),
+            cwd,
+        };
+        let (stop_tx, stop_rx) = tokio::sync::oneshot::channel::<StopReason>();
+        let mut stop_tx = Some(stop_tx);
+        let ready = cwd_ready.clone();
+        let want_stop = stop_timeout;
+        let stopper = async move {
+            if want_stop {
+                while !ready.exists() {
+                    tokio::time::sleep(Duration::from_millis(5)).await;
+                }
+                if let Some(tx) = stop_tx.take() {
+                    let _ = tx.send(StopReason::Timeout);
+                }
+            }
+            let _keep = stop_tx;
+            futures::future::pending::<()>().await;
+        };
+        let fut = hyperqueue::worker::start::verif_program::create_task_future(
+            streamer.clone(),
+            program,
+            task_id,
+            tako::InstanceId::new(0),
+            stop_rx,
+            Some(dir2.clone()),
+        );
+        let r = tokio::select! {
+            r = tokio::time::timeout(Duration::from_secs(30), fut) => match r {
+                Ok(r) => r,
+                Err(_) => return Err("create_task_future did not return within 30 s".to_string()),
+            },
+            _ = stopper => unreachable!(),
+        };
+        // everything that was enqueued reaches the file (what the worker's later flushes /
+        // shutdown do); a dummy stream of another task is flushed through the same writer
+        if let Ok(s) = streamer.get_mut().get_stream(&streamer, &dir2, tako::TaskId::new(4_000_000.into(), 0.into()), tako::InstanceId::new(0)) {
+            let _ = tokio::time::timeout(Duration::from_secs(20), s.flush()).await;
+        }
+        Ok(r)
+    });
+    drop(local);
+    let result = result?;
+    let mut log = OutputLog::open(&dir, None).map_err(|e| format!("OutputLog::open: {e}"))?;
+    let (jid, tid) = (tako::JobId::new(1), tako::JobTaskId::new(0));
+    let insts = log.verif_instances(jid, tid);
+    let sel = Some(hyperqueue::common::arraydef::IntArray::from_id(0));
+    let cat = |log: &mut OutputLog, ch: u32| -> String {
+        log.verif_cat(jid, &sel, ch, true).map(|b| String::from_utf8_lossy(&b).to_string()).unwrap_or_else(|e| format!("<cat error: {e}>"))
+    };
+    let stdout = cat(&mut log, 0);
+    let stderr = cat(&mut log, 1);
+    Ok(StreamOutcome {
+        result_ok: matches!(result, Ok(TaskResult::Finished)),
+        in_index: !insts.is_empty(),
+        finished: insts.last().is_some_and(|i| i.finished),
+        stdout,
+        stderr,
+    })
+}
+
+/// C19 on the real launcher path; adds violations to the report, returns machinery errors.
+pub fn run_stream(report: &mut Report) -> Vec<String> {
+    let all = stream_cases();
+    let mut machinery = Vec::new();
+    let results: Vec<(StreamCase, Result<StreamOutcome, String>)> = std::thread::scope(|s| {
+        let hs: Vec<_> = all
+            .iter()
+            .map(|c| {
+                let c = c.clone();
+                s.spawn(move || {
+                    let r = run_stream_case(&c);
+                    (c, r)
+                })
+            })
+            .collect();
+        hs.into_iter().map(|h| h.join().expect("stream case thread")).collect()
+    });
+    let mut table = Vec::new();
+    for (c, r) in results {
+        match r {
+            Err(e) => machinery.push(format!("launcher stream case {}: {e}", c.name)),
+            Ok(o) => {
+                report.states += 1;
+                report.transitions += 1;
+                report.executions += 1;
+                table.push(json!({"case": c.name, "script": c.script, "outcome": o}));
+                let mk = |clause: &str, detail: String| Violation {
+                    property: "C19".into(),
+                    clause: clause.to_string(),
+                    site: format!("real create_task_future: {}", c.name),
+                    detail,
+                    engine: "launcher".into(),
+                    replay: json!({"stream_case": c, "expect": {"property": "C19", "clause": clause}}),
+                };
+                if o.result_ok != c.ok {
+                    // not C19's business by itself, but the cases below assume it
+                    machinery.push(format!("launcher stream case {}: task result ok={} expected {}", c.name, o.result_ok, c.ok));
+                    continue;
+                }
+                if !o.in_index || !o.finished {
+                    report.add_violation(mk(
+                        "launcher-stream-not-finished",
+                        format!("the task ended ({}), its stream was flushed, but the reader {} (script: {})", if c.ok { "finished" } else { "failed" }, if o.in_index { "says the stream is unfinished" } else { "does not know the task" }, c.script),
+                    ));
+                } else if o.stdout != c.stdout || o.stderr != c.stderr {
+                    report.add_violation(mk(
+                        "launcher-stream-bytes",
+                        format!("the task wrote stdout {:?} stderr {:?}, the stream directory returns stdout {:?} stderr {:?} (script: {})", c.stdout, c.stderr, o.stdout, o.stderr, c.script),
+                    ));
+                }
+            }
+        }
+    }
+    report.extra.insert(
+        "launcher_stream".into(),
+        json!({
+            "what": "real create_task_future (spawn, join of child-wait and the two stdio forwarders, final flush) with real bash programs, read back with OutputLog",
+            "cases": table,
+        }),
+    );
+    machinery
+}
+
+pub fn replay_stream(v: &serde_json::Value) -> i32 {
+    let c: StreamCase = match serde_json::from_value(v["replay"]["stream_case"].clone()) {
+        Ok(c) => c,
+        Err(e) => {
+            eprintln!("launcher replay: bad stream case: {e}");
+            return 2;
+        }
+    };
+    match run_stream_case(&c) {
+        Err(e) => {
+            eprintln!("launcher replay: {e}");
+            2
+        }
+        Ok(o) => {
+            println!("case {}: {:?} (expected stdout {:?} stderr {:?} finished)", c.name, o, c.stdout, c.stderr);
+            let bad = !o.in_index || !o.finished || o.stdout != c.stdout || o.stderr != c.stderr;
+            println!("{}", if bad { "REPRODUCED" } else { "NOT REPRODUCED" });
+            if bad { 1 } else { 0 }
         }
     }
 }
